@@ -164,6 +164,25 @@ def handle : List String → Verdict
           predfail := if ok && nameOk then none else some s!"SafeScript output unsafe (quote/lt free and decodes to inline: {ok}; name handled: {nameOk})",
           nontrivial := true, tags := ["safe", if validFunctionName fn then "fn-valid" else "fn-invalid"], sig := "safe" }
     | _, _, _ => .badOp
+  | ["scv", ty, sH, inH, outH] =>
+    match hexField sH, hexField inH, hexField outH with
+    | some _s, some inn, some out =>
+      -- any Go value type: outside a literal the JSON must not be able to end the script element or open a comment,
+      -- inside a literal the text must be the body of one literal in all three kinds
+      let okOut := scriptDataSafe out && !out.contains 38 && !out.contains 62
+      let okIn := quotes.all fun q => match lexString q (inn ++ [q.byte]) with | .ok _ [] => true | _ => false
+      { predfail := if okOut && okIn then none else some s!"script content of a {ty} value unsafe: outsideSafe={okOut} insideIsLiteralBody={okIn} out={Bytes.toHex (out.take 200)}",
+        nontrivial := true, tags := ["scv:" ++ ty], sig := "scv;" ++ ty }
+    | _, _, _ => .badOp
+  | ["quote", scriptH, flagsS] =>
+    match hexField scriptH with
+    | some script =>
+      let want := markerFlags (Bytes.ofString "{{ v }}") script
+      let got := if flagsS == "-" then [] else flagsS.toList.map (· == '1')
+      { predfail := if want == got then none else
+          some s!"parser's in-string-literal flags {got} differ from the JS lexer's {want}",
+        nontrivial := want.any id, tags := ["quote"], sig := "quote" }
+    | none => .badOp
   | ["pos", name, sH, docH] =>
     match hexField sH, hexField docH with
     | some s, some doc =>
